@@ -836,8 +836,9 @@ func (db *DB) CheckpointNoLock(ctx context.Context) (err error) {
 // of each page in the WAL. Also returns the commit size of the last transaction.
 func (db *DB) readWALPageOffsets(f *os.File) (_ map[uint32]int64, lastCommit uint32, _ error) {
 	r := NewWALReader(f)
-	if err := r.ReadHeader(); err == io.EOF {
-		return nil, 0, nil
+	var hdrErr *invalidWALHeaderError
+	if err := r.ReadHeader(); err == io.EOF || errors.As(err, &hdrErr) {
+		return nil, 0, nil // no valid frames
 	} else if err != nil {
 		return nil, 0, err
 	}
